@@ -3,7 +3,7 @@ from hypothesis import strategies as st
 
 from engines.runtime_worker import run_scenario
 from engines.scenarios import ALL, EXC_NAMES, RETURN_NAMES, accept_delay, cleanup, events, switchinterval
-from vlib.core import Result, TestDef
+from vlib.core import HarnessError, Result, TestDef
 
 ID = "C12"
 LEVEL = "fault_enumeration"
@@ -96,8 +96,7 @@ def history(draw):
 def judge(sc, obs) -> Result:
     res = Result()
     if obs.get("worker_error"):
-        res.fail("worker-error", obs["worker_error"])
-        return res
+        raise HarnessError("scenario worker failed: " + str(obs["worker_error"]))
     eps = obs.get("episodes", [])
     if obs.get("hang") or len(eps) < len(sc["episodes"]):
         k = len(eps)
@@ -108,8 +107,7 @@ def judge(sc, obs) -> Result:
         return res
     for o in obs.get("ops", []):
         if o.get("error"):
-            res.fail("harness-driver-error", f"{o}")
-            return res
+            raise HarnessError(f"driver thread failed: {o}")
     for k, (ep, out) in enumerate(zip(sc["episodes"], eps)):
         mode = ep["trigger"]["mode"]
         ops = [o for o in obs["ops"] if o.get("ep") == k]
